@@ -152,6 +152,7 @@ type storeDesc struct {
 	Name  string  `json:"name"`
 	Certs []int64 `json:"certs"` // 0 = a nil certificate pointer
 	Fail  bool    `json:"fail,omitempty"`
+	Kind  string  `json:"kind,omitempty"` // family fs-symlink: what the named store is on disk
 	Nil   bool    `json:"nil_slice,omitempty"` // the store answers (nil, nil)
 }
 
@@ -190,6 +191,7 @@ type c03Case struct {
 	Stmts      []stmtDesc  `json:"statements"`
 	Stores     []storeDesc `json:"stores"`
 	Real       bool        `json:"real_store,omitempty"`
+	Layout     bool        `json:"fs_layout,omitempty"` // real directory store on a tree the driver built; Stores says what every named store IS (ground truth by construction, not asked from the store)
 	Plugin     *pluginDesc `json:"verification_plugin,omitempty"`
 	Mutate     []string    `json:"mutated_stores,omitempty"` // replaces the stores of statement "sel" after validation
 	Labels     []string    `json:"labels,omitempty"`
@@ -221,7 +223,7 @@ func runC03(a *Args) error {
 	rng := NewRng(a.Seed)
 	prelude := "From NV Require Import Base C03_Model C03_PluginModel.\nOpen Scope string_scope.\n"
 	w := NewCaseWriter(a, "C03", prelude, "xcase", "xrun")
-	w.Rule = "placements of the signing chain's root/intermediate/leaf, of twin certificates (same subject and key, other serial), of unrelated and TSA certificates into named stores of the types ca/signingAuthority/tsa; statement trust-store lists with duplicates, several types, unknown and failing stores; 1-4 statements with exact/wildcard/foreign/case-variant scopes; both schemes, both envelope formats, with and without a timestamp countersignature (in-process TSA). Families: exhaustive (all lists of length<=2 (thorough <=3) over {ca:a,signingAuthority:a,tsa:a,ca:b} x 5 root placements x 2 schemes x 4 failure patterns); random scenarios (right store / wrong type / unlisted / other statement / tsa / load error); real truststore.NewX509TrustStore on a directory (fs asked from the store itself); malformed lists injected after validation (correspondence only); rare-names (store names differing by case only, leading dots, type words as names; empty vs nil slice vs nil element answers); positions (the trusted store at every list position x 13 kinds of odd element at every other position, matched chain certificate and its place inside the store rotating); statement-positions (all 24 orders of exact/wildcard/foreign/case-variant statements x which one lists the trusted store x 7 references incl. upper-case host and port); history (ONE verifier and ONE store object, 2-4 Verify calls with the store content, scheme, chain or repository changed in between; every operator after every start state in both directions plus random sequences; each step its own case); namespaces (one verifier holding an OCI and a blob document whose statements share names, Verify and VerifyBlob alternating); blob-selection (three blob statements named P / p / P2 in every order, the trusted store listed by one of them, the global flag on none or each, called by each name, by a name nobody has, and without a name); plugin (the signature names a verification plugin: capabilities none / non-verification / TI / Rev / TI+Rev / Rev+TI x trusted-identity verdict x level strict / audit / strict with authenticity=log / permissive x trust situation anchored / not anchored / other-type store only / unloadable listed store with the good store at every position x both schemes; observed: the authenticity result the outcome FINALLY reports). Each case runs the real verifier.Verify or VerifyBlob. non-trivial = an authenticity result exists and some chain certificate sits in some store; distinct = distinct canonical inputs"
+	w.Rule = "placements of the signing chain's root/intermediate/leaf, of twin certificates (same subject and key, other serial), of unrelated and TSA certificates into named stores of the types ca/signingAuthority/tsa; statement trust-store lists with duplicates, several types, unknown and failing stores; 1-4 statements with exact/wildcard/foreign/case-variant scopes; both schemes, both envelope formats, with and without a timestamp countersignature (in-process TSA). Families: exhaustive (all lists of length<=2 (thorough <=3) over {ca:a,signingAuthority:a,tsa:a,ca:b} x 5 root placements x 2 schemes x 4 failure patterns); random scenarios (right store / wrong type / unlisted / other statement / tsa / load error); real truststore.NewX509TrustStore on a directory (fs asked from the store itself); malformed lists injected after validation (correspondence only); rare-names (store names differing by case only, leading dots, type words as names; empty vs nil slice vs nil element answers); positions (the trusted store at every list position x 13 kinds of odd element at every other position, matched chain certificate and its place inside the store rotating); statement-positions (all 24 orders of exact/wildcard/foreign/case-variant statements x which one lists the trusted store x 7 references incl. upper-case host and port); history (ONE verifier and ONE store object, 2-4 Verify calls with the store content, scheme, chain or repository changed in between; every operator after every start state in both directions plus random sequences; each step its own case); namespaces (one verifier holding an OCI and a blob document whose statements share names, Verify and VerifyBlob alternating); blob-selection (three blob statements named P / p / P2 in every order, the trusted store listed by one of them, the global flag on none or each, called by each name, by a name nobody has, and without a name); plugin (the signature names a verification plugin: capabilities none / non-verification / TI / Rev / TI+Rev / Rev+TI x trusted-identity verdict x level strict / audit / strict with authenticity=log / permissive x trust situation anchored / not anchored / other-type store only / unloadable listed store with the good store at every position x both schemes; observed: the authenticity result the outcome FINALLY reports); fs-symlink (the REAL directory store on a tree built by the driver: the listed store of the scheme's type is a real directory / a symlink to a store of the other type, to a tsa store, to an unlisted store of the same type, to a directory outside the tree (relative, absolute) / a real directory with a symlinked certificate file / missing, alone and at both positions next to a loadable store, before the real store, after a tsa store; the model's trust store is the CONSTRUCTION (only a real directory of that type loads), not what the store answers). Each case runs the real verifier.Verify or VerifyBlob. non-trivial = an authenticity result exists and some chain certificate sits in some store; distinct = distinct canonical inputs"
 	w.Assumptions = []string{
 		"certificate identity is x509.Certificate.Equal (ids assigned by Equal); notation-core-go VerifyAuthenticity is an input-independent dependency (some chain certificate Equal some trust certificate)",
 		"the trust store is a function of (type, name) during one Verify; for the real directory store its answers are obtained by direct calls before Verify",
@@ -385,6 +387,62 @@ func runC03(a *Args) error {
 	realNames := []string{"a", "b", "c", "d", "empty", "bad", "multi", "self", "link", "file", "nonexistent", ".dot", "A", "...", "tsa"}
 	realInner := truststore.NewX509TrustStore(dir.NewSysFS(realRoot))
 
+	// ---------- a second real tree: named stores that are symbolic links (family fs-symlink) ----------
+	layoutRoot := filepath.Join(a.Out, "layoutstore")
+	lx := filepath.Join(layoutRoot, "truststore", "x509")
+	lwrite := func(dirPath, file string, ids ...int64) {
+		if err := os.MkdirAll(dirPath, 0o755); err != nil {
+			panic(err)
+		}
+		var b []byte
+		for _, cid := range ids {
+			b = append(b, pem.EncodeToMemory(&pem.Block{Type: "CERTIFICATE", Bytes: pool.get(cid).Raw})...)
+		}
+		if err := os.WriteFile(filepath.Join(dirPath, file), b, 0o644); err != nil {
+			panic(err)
+		}
+	}
+	lsym := func(target, link string) {
+		if err := os.MkdirAll(filepath.Dir(link), 0o755); err != nil {
+			panic(err)
+		}
+		if err := os.Symlink(target, link); err != nil {
+			panic(err)
+		}
+	}
+	layoutTrust := n3.ids[2]
+	var layoutStores []storeDesc
+	lwrite(filepath.Join(layoutRoot, "outside"), "root.pem", layoutTrust)
+	lwrite(filepath.Join(lx, "tsa", "roots"), "root.pem", layoutTrust, idTSARoot)
+	layoutStores = append(layoutStores, storeDesc{Type: "tsa", Name: "roots", Certs: []int64{layoutTrust, idTSARoot}, Kind: "real directory"})
+	for _, t := range []string{"ca", "signingAuthority"} {
+		o := map[string]string{"ca": "signingAuthority", "signingAuthority": "ca"}[t]
+		lwrite(filepath.Join(lx, t, "real"), "root.pem", layoutTrust)
+		lwrite(filepath.Join(lx, t, "unlisted"), "root.pem", layoutTrust)
+		lwrite(filepath.Join(lx, t, "noise"), "u.pem", idUnrelRoot)
+		lsym(filepath.Join("..", o, "real"), filepath.Join(lx, t, "to-othertype"))
+		lsym(filepath.Join("..", "tsa", "roots"), filepath.Join(lx, t, "to-tsa"))
+		lsym("unlisted", filepath.Join(lx, t, "to-unlisted"))
+		lsym(filepath.Join("..", "..", "..", "outside"), filepath.Join(lx, t, "to-outside-rel"))
+		lsym(filepath.Join(layoutRoot, "outside"), filepath.Join(lx, t, "to-outside-abs"))
+		if err := os.MkdirAll(filepath.Join(lx, t, "filelink"), 0o755); err != nil {
+			panic(err)
+		}
+		lsym(filepath.Join("..", "real", "root.pem"), filepath.Join(lx, t, "filelink", "root.pem"))
+		layoutStores = append(layoutStores,
+			storeDesc{Type: t, Name: "real", Certs: []int64{layoutTrust}, Kind: "real directory"},
+			storeDesc{Type: t, Name: "unlisted", Certs: []int64{layoutTrust}, Kind: "real directory (never listed)"},
+			storeDesc{Type: t, Name: "noise", Certs: []int64{idUnrelRoot}, Kind: "real directory"},
+			storeDesc{Type: t, Name: "to-othertype", Fail: true, Kind: "symlink to " + o + "/real"},
+			storeDesc{Type: t, Name: "to-tsa", Fail: true, Kind: "symlink to tsa/roots"},
+			storeDesc{Type: t, Name: "to-unlisted", Fail: true, Kind: "symlink to " + t + "/unlisted"},
+			storeDesc{Type: t, Name: "to-outside-rel", Fail: true, Kind: "relative symlink to a directory outside the trust store tree"},
+			storeDesc{Type: t, Name: "to-outside-abs", Fail: true, Kind: "absolute symlink to a directory outside the trust store tree"},
+			storeDesc{Type: t, Name: "filelink", Fail: true, Kind: "real directory whose certificate file is a symlink"},
+			storeDesc{Type: t, Name: "missing", Fail: true, Kind: "no such directory"})
+	}
+	layoutInner := truststore.NewX509TrustStore(dir.NewSysFS(layoutRoot))
+
 	// ---------- running one case ----------
 	var id int64
 	digestPart := strings.TrimPrefix(TestRef, TestScope)
@@ -432,7 +490,9 @@ func runC03(a *Args) error {
 	}
 	setup := func(my int64, c *c03Case) *session {
 		ss := &session{selIdx: -1}
-		if c.Real {
+		if c.Layout {
+			ss.inner = layoutInner
+		} else if c.Real {
 			ss.inner = realInner
 		} else {
 			ss.mock = NewMockStore()
@@ -611,6 +671,24 @@ func runC03(a *Args) error {
 		var errKey map[string]StoreKey
 		if ss.facts != nil {
 			fsTerms, errKey = ss.facts.fs, ss.facts.errKey
+		} else if c.Layout {
+			// ground truth by construction: a named store loads iff it is a REAL directory of its type
+			// holding regular certificate files; the store is asked only for the text of its errors
+			errKey = map[string]StoreKey{}
+			for _, sd := range c.Stores {
+				if sd.Fail {
+					fsTerms = append(fsTerms, CPair(CPair(CStr(sd.Type), CStr(sd.Name)), "LoadError"))
+					if _, err := inner.GetCertificates(context.Background(), truststore.Type(sd.Type), sd.Name); err != nil {
+						errKey[err.Error()] = StoreKey{Type: truststore.Type(sd.Type), Name: sd.Name}
+					}
+					continue
+				}
+				ids := make([]string, len(sd.Certs))
+				for i, x := range sd.Certs {
+					ids[i] = CN(x)
+				}
+				fsTerms = append(fsTerms, CPair(CPair(CStr(sd.Type), CStr(sd.Name)), CApp("Certs", CList(ids))))
+			}
 		} else {
 			fsTerms, errKey = storeFacts(c, inner, finalStores)
 		}
@@ -1977,6 +2055,34 @@ func runC03(a *Args) error {
 								}}
 							runCase(c)
 						}
+					}
+				}
+			}
+		}
+	}
+
+	// ---------- family 8c: the REAL directory store with named stores that are symbolic links ----------
+	// the listed store of the scheme's type is a real directory (control), a symlink to a store of the other
+	// type / to a tsa store / to an unlisted store of the same type / to a directory outside the tree, a
+	// real directory with a symlinked certificate file, or missing; alone, before and after a loadable
+	// store without chain certificate, and before the real store. Ground truth is the construction: only a
+	// real directory of that type loads.
+	{
+		fk := 0
+		for _, sa := range []bool{false, true} {
+			req := "ca"
+			if sa {
+				req = "signingAuthority"
+			}
+			for _, kind := range []string{"real", "to-othertype", "to-tsa", "to-unlisted", "to-outside-rel", "to-outside-abs", "filelink", "missing"} {
+				lists := [][]string{{req + ":" + kind}, {req + ":noise", req + ":" + kind}, {req + ":" + kind, req + ":noise"}, {req + ":" + kind, req + ":real"}, {"tsa:roots", req + ":" + kind}}
+				for li, list := range lists {
+					for _, lv := range []string{"strict", "audit"} {
+						fk++
+						c := &c03Case{Family: "fs-symlink", Layout: true, Chain: "n3", Format: formats[fk%2], SA: sa, TS: 0,
+							Stmts:  []stmtDesc{{Name: "sel", Scopes: []string{TestScope}, Stores: list, Level: lv, TSOpt: string(trustpolicy.OptionAfterCertExpiry)}},
+							Stores: layoutStores, Labels: []string{"fs:" + kind, fmt.Sprintf("fs-list-%d", li)}}
+						runCase(c)
 					}
 				}
 			}
